@@ -370,7 +370,12 @@ func (re *Regexp) findAllRunesIndex(runner *Runner, input []rune, startAt, n int
 			start, end := makeIndex(m.RuneIndex, m.RuneLength)
 			flat = append(flat, start, end)
 			out = append(out, flat[len(flat)-2:len(flat):len(flat)])
-			prevEnd = m.RuneIndex + m.RuneLength
+			// the previous match "ends", in scan direction, at its start for right-to-left patterns
+			if re.RightToLeft() {
+				prevEnd = m.RuneIndex
+			} else {
+				prevEnd = m.RuneIndex + m.RuneLength
+			}
 			if n > 0 {
 				n--
 			}
